@@ -69,6 +69,7 @@ float Decoder::flt()
 
 void Decoder::read(std::string &v)
 {
+   need(sizeof(uint32_t));
    auto len = u32();
    need(len);
    v.resize(len);
